@@ -26,7 +26,8 @@ RULE = (
     "(incl. ternaries) whose every argument position is a clean literal, an integer, nil, or a variable holding a str, Markup, list, "
     "dict, float, list with non-string items, int, bool, nil, __html__ object or nothing (special-rich contents); filter-pairs includes "
     "variants with a list/dict/mixed-list/float/int variable as argument; stream render: templates over output/echo/assign/capture/cycle/"
-    "for/if/unless/elsif/case/liquid/include/render/translate; stream safe-values: Markup and __html__ objects through "
+    "for/if/unless/elsif/case/liquid/include/render/translate; stream cycle-key: every triple of unnamed cycles over literal / plain / Markup / "
+    "undefined items (exhaustive over 7 argument groups x 3 data sets); stream safe-values: Markup and __html__ objects through "
     "output/assign/for/first/last/default/cycle/include. Every case renders with autoescape on and off. Non-trivial: the render "
     "data reaching the expression contain at least one of < > ' \" & and the render succeeded (or, for escape/markup, an operand "
     "contains a special)."
@@ -59,9 +60,11 @@ MANIFEST = {
     "text": "escape_clean, filter_preserves_inv, expression_preserves_inv, capture_safe, output_no_raw_specials and safe_values_unchanged "
     "are proved for every template of the modelled fragment, every filter chain, every render data and all opaque text functions; "
     "amp_entities_partial holds for templates restricted to the entity-friendly filters, with kernel-checked counter-examples for the "
-    "filters that cut, replace inside or upper-case an already escaped value (known findings); the autoescape-is-a-no-op sentence is "
-    "proved at operator level only (autoescape_noop_on_clean_partial), refuted on outputs (autoescape_noop_counterexample) and otherwise "
-    "checked by rendering every generated case with autoescape on and off.",
+    "filters that cut, replace inside or upper-case an already escaped value (known findings); the exclusion list of amp_entities_partial is exact "
+    "(amp_entities_exclusions_exact); the autoescape-is-a-no-op sentence is proved for every admitted filter (filter_noop_on_clean) and "
+    "for one-statement templates with chains of any length (autoescape_noop_on_clean), at operator level in general "
+    "(autoescape_noop_on_clean_partial), refuted on outputs (autoescape_noop_counterexample) and otherwise checked by rendering every "
+    "generated case with autoescape on and off.",
     "note": "Trusted: Lean kernel, the hand model of the filters/tags and of markupsafe operators (tied by ~15.6k differential cases "
     "per quick run, ~93k per thorough run), the harness desugaring. Not covered: dict/drop data, date/number formatting filters, real translation catalogues.",
 }
@@ -1402,6 +1405,30 @@ class RenderOffStream(RenderStream):
         return "ok" in obs["off"] and len(obs["off"]["ok"]) > 0
 
 
+class CycleKeyStream(RenderStream):
+    """unnamed cycles with equal items share their state whether the items are literals (Markup under autoescape), plain
+    strings or Markup values from the data: the on/off oracle and the model's cycle key (fix aa2433c)"""
+
+    name = "cycle-key"
+    exhaustive = True
+
+    def cases(self, ctx):
+        self.parallel = False
+        out = []
+        L = lambda s: {"lit": s}
+        V = lambda n: {"var": n}
+        groups = [[L("a"), L("b")], [V("x"), V("y")], [V("m"), L("b")], [L("a"), V("y")], [V("x"), L("c")], [V("nosuch"), L("b")], [V("z"), L("b")]]
+        datas = [{"x": {"s": "a", "m": False}, "y": {"s": "b", "m": False}, "m": {"s": "a", "m": True}},
+                 {"x": {"s": "a", "m": True}, "y": {"s": "b", "m": False}, "m": {"s": "a", "m": True}},
+                 {"x": {"s": "<", "m": False}, "y": {"s": "b", "m": False}, "m": {"s": "&lt;", "m": True}}]
+        for d in datas:
+            for g1 in groups:
+                for g2 in groups:
+                    for g3 in (groups[0], groups[1]):
+                        out.append({"nodes": [["cycle", g1], ["text", "."], ["cycle", g2], ["text", "."], ["cycle", g3]], "data": d})
+        return out
+
+
 class SafeValuesStream(Stream):
     """values explicitly marked safe (Markup, objects with __html__) are output unchanged"""
 
@@ -1505,4 +1532,4 @@ class DateCacheStream(Stream):
 
 
 def streams(ctx):
-    return [EscapeStream(), MarkupStream(), FilterPairsStream(), FilterTaintStream(), RenderStream(), RenderOffStream(), SafeValuesStream(), DateCacheStream()]
+    return [EscapeStream(), MarkupStream(), FilterPairsStream(), FilterTaintStream(), RenderStream(), RenderOffStream(), CycleKeyStream(), SafeValuesStream(), DateCacheStream()]
